@@ -65,12 +65,12 @@ theorem decode_rejects_v_prefix (s : String) (hs : s.toList.head? = some 'v') :
     subst hs
     simp [parse, parseInt, isDigit, Except.toOption]
 
-/-- main.go's normalisation of the linker-provided version is the one modelled by `normalizeBuild`
-(regenerated from main.go: the rewriting condition, the rewriting statement, and what is handed to the command) -/
-theorem pin_main_normalisation :
-    Generated.mainTrimCond = "strings.HasPrefix($i.GitVersion, \"v\") && semver.IsValid($i.GitVersion)" ∧
-    Generated.mainTrimBody = ["$i.GitVersion = strings.TrimPrefix($i.GitVersion, \"v\")"] ∧
-    Generated.mainVersionHanded = "$bv.GitVersion" := by decide
+/-- what main() hands to the build command is the `GitVersion` of the value `buildVersion()` returns (regenerated from
+main.go). That `buildVersion()` computes `normalizeBuild` of the linker-provided version is NOT pinned textually: package main
+is built with a probe file (overlay, build tag verif) and the real function is run against `normalizeBuild` on a grid of
+spellings on every run of the check (correspondence `normalizeBuild`), so rewriting that function is no alarm while
+changing what it computes is a replayable disagreement. -/
+theorem pin_main_handed : Generated.mainVersionHanded = "$bv.GitVersion" := by decide
 
 /-- **a leading `v` of the linker-provided version is stripped whenever the rest is a semantic
 version** — whatever prerelease or build suffix it carries — so the gate sees exactly `B` -/
